@@ -295,15 +295,24 @@ impl BinWrite for SmallType {
         endian: binrw::Endian,
         _args: Self::Args<'_>,
     ) -> binrw::BinResult<()> {
+        let pos = writer.stream_position()?;
+        // scale first, then narrow: a duration the field cannot hold is an error, not a wrapped value
+        let checked = |value: u128| {
+            u32::try_from(value).map_err(|_| binrw::Error::AssertFail {
+                pos,
+                message: "Could not convert to duration without loss".into(),
+            })
+        };
+
         let (discrim, uval) = match self {
             SmallType::None => (0u8, 0u32),
-            SmallType::Ssp(uval) => (1u8, uval.as_millis() as u32 / 10),
-            SmallType::Ssg(uval) => (2u8, uval.as_millis() as u32 / 10),
+            SmallType::Ssp(uval) => (1u8, checked(uval.as_millis() / 10)?),
+            SmallType::Ssg(uval) => (2u8, checked(uval.as_millis() / 10)?),
             SmallType::Vta(uval) => (3u8, uval.into()),
             SmallType::Tms(uval) => (4u8, *uval as u32),
-            SmallType::Stp(uval) => (5u8, uval.as_millis() as u32 / 10),
-            SmallType::Rtp(uval) => (6u8, uval.as_millis() as u32 / 10),
-            SmallType::Nli(uval) => (7u8, uval.as_millis() as u32),
+            SmallType::Stp(uval) => (5u8, checked(uval.as_millis() / 10)?),
+            SmallType::Rtp(uval) => (6u8, checked(uval.as_millis() / 10)?),
+            SmallType::Nli(uval) => (7u8, checked(uval.as_millis())?),
             SmallType::Alc(uval) => (8u8, uval.bits()),
             SmallType::Lcs(uval) => (9u8, uval.bits()),
             SmallType::Lcl(uval) => (10u8, uval.bits()),
